@@ -44,6 +44,16 @@ type FibStrategy interface {
 	SetStrategyEnc(name enc.Name, strategy enc.Name)
 	UnSetStrategyEnc(name enc.Name)
 	GetAllForwardingStrategies() []FibStrategyEntry
+
+	// UpdateBatch runs fn with the table locked for writing: the next-hop
+	// changes fn makes through b become visible to lookups all at once.
+	UpdateBatch(fn func(b FibBatch))
+}
+
+// FibBatch is the part of the table that can be changed inside UpdateBatch.
+type FibBatch interface {
+	InsertNextHopEnc(name enc.Name, nextHop uint64, cost uint64)
+	ClearNextHopsEnc(name enc.Name)
 }
 
 // FibStrategy is a table containing FIB and Strategy entries for given prefixes.
